@@ -17,7 +17,7 @@
    is proved for every number of steps.  The (s,i) effective degree model is the hand-written Model/Rhs2D.v definition
    (C07x_ebcm_to_effective_degree) and the definition generated from the source (C07x_ebcm_to_effective_degree_generated).
    Every wrapper of the hierarchy is shown to start at the manifold point Phi(theta = 1, R = 0) on the rho path. *)
-From EoNV Require Import Prelude Graph Vec VecP Aux AuxP IC Wrappers ICP Pgf C07xPoly C07xHier C07xIC C07xPref C07xMf C07xCed C07xCedIC C07xEd C07xEdIC Rhs Rhs2D Rhs2.
+From EoNV Require Import Prelude Graph Vec VecP Aux AuxP IC Wrappers ICP Pgf C07xPoly C07xHier C07xIC C07xPref C07xMf C07xCed C07xCedIC C07xEd C07xEdIC C07xReg Rhs Rhs2D Rhs2DP Rhs2.
 
 (* ---------- the formal derivative is the derivative ---------- *)
 Theorem C07x_formal_derivative_is_derivative : forall (F : pmap) x h,
@@ -246,6 +246,58 @@ Example C07x_nonvacuous_lump_SIR_hmf :
   ~ Qnat 3 == 0 /\ ~ vnth 0 (dSIR_heterogeneous_meanfield ([1 # 2] ++ unitv 3 1) 0 (unitv 3 9) (unitv 3 10) (1 # 2) 1) == 0.
 Proof. split; intro H; vm_compute in H; discriminate. Qed.
 
+(* ---------- regular graphs, rho path: the wrappers start at corresponding points of the symmetric subspace ---------- *)
+(* regularb g k: every node has degree k.  r = rho (or 1/N), N = G.order().  The correspondences are the changes of variables of
+   C07_lump_SIR/SIS_compact_pairwise_regular (Props/C07.v), C07_lump_SIS_heterogeneous_meanfield_regular and
+   C07x_lump_SIR_heterogeneous_meanfield_regular at (theta, r) = (1, 0); also: the homogeneous pairwise wrappers' EoNError guard
+   does not fire, n = k, and the N / Nk / twoM arguments agree. *)
+Theorem C07x_SIR_pairwise_regular_initial_points : forall g k rho_opt,
+  wf_ugraph g = true -> regularb g k = true ->
+  let r := rho_or_default g rho_opt in let rq := mkReq None None rho_opt in let N := gN g in
+  0 <= r -> r <= 1 ->
+  let s := (1 - r) * N in let SS := (1 - r) * ((1 - r) * N * Qnat k) in let SI := r * ((1 - r) * N * Qnat k) in
+  exists Sk0 I0 R0 SS0 SI0 S0' I0' SI0' SS0' n,
+    (forall full sv, SIR_compact_pairwise_from_graph g rq full sv = Ok (SIR_compact_pairwise Sk0 I0 R0 SS0 SI0 full sv)) /\
+    (forall full sv, SIR_homogeneous_pairwise_from_graph g rq full sv = SIR_homogeneous_pairwise S0' I0' 0 SI0' SS0' n full sv) /\
+    Qltb (n * (S0' + I0' + 0)) (SS0' + 2 * SI0') = false /\
+    veq (Sk0 ++ [SS0; SI0; R0]) (unitv k s ++ [SS; SI; 0]) /\
+    veq [S0'; I0'; SI0'; SS0'] [s; N - s - 0; SI; SS] /\ n == Qnat k /\ I0 + R0 + vsum Sk0 == N.
+Proof. exact SIR_pairwise_regular_ic. Qed.
+Theorem C07x_SIS_pairwise_regular_initial_points : forall g k rho_opt,
+  wf_ugraph g = true -> regularb g k = true ->
+  let r := rho_or_default g rho_opt in let rq := mkReq None None rho_opt in let N := gN g in
+  0 <= r -> r <= 1 ->
+  let s := (1 - r) * N in let SS := (1 - r) * N * Qnat k * (1 - r) in let SI := (1 - r) * N * Qnat k * r in
+  exists Sk0 Ik0 SI0 SS0 II0 S0' I0' SI0' SS0' n,
+    (forall full sv, SIS_compact_pairwise_from_graph g rq full sv = Ok (SIS_compact_pairwise Sk0 Ik0 SI0 SS0 II0 full sv)) /\
+    (forall full sv, SIS_homogeneous_pairwise_from_graph g rq full sv = SIS_homogeneous_pairwise S0' I0' SI0' SS0' n full sv) /\
+    Qltb (n * (S0' + I0')) (SS0' + SI0' * 2) = false /\
+    veq (Sk0 ++ [SI0; SS0]) (unitv k s ++ [SI; SS]) /\ veq (vadd Sk0 Ik0) (unitv k N) /\ SS0 + II0 + 2 * SI0 == N * Qnat k /\
+    veq [S0'; SI0'; SS0'] [s; SI; SS] /\ S0' + I0' == N /\ n == Qnat k.
+Proof. exact SIS_pairwise_regular_ic. Qed.
+Theorem C07x_SIS_meanfield_regular_initial_points : forall g k rho_opt,
+  wf_ugraph g = true -> regularb g k = true ->
+  let r := rho_or_default g rho_opt in let rq := mkReq None None rho_opt in let N := gN g in
+  0 <= r -> r <= 1 ->
+  exists Sk0 Ik0 S0' I0',
+    (forall full sv, SIS_heterogeneous_meanfield_from_graph g rq full sv = SIS_heterogeneous_meanfield Sk0 Ik0 full sv) /\
+    (forall sv, SIS_homogeneous_meanfield_from_graph g rq sv = Ok (SIS_homogeneous_meanfield S0' I0' sv)) /\
+    veq (Sk0 ++ Ik0) (unitv k ((1 - r) * N) ++ unitv k (r * N)) /\ veq [S0'; I0'] [(1 - r) * N; r * N].
+Proof. exact SIS_meanfield_regular_ic. Qed.
+Theorem C07x_SIR_meanfield_regular_initial_points : forall g k rho_opt,
+  wf_ugraph g = true -> regularb g k = true ->
+  let r := rho_or_default g rho_opt in let rq := mkReq None None rho_opt in let N := gN g in
+  0 <= r -> r <= 1 ->
+  exists Sk0 Ik0 Rk0 S0' I0',
+    (forall full sv, SIR_heterogeneous_meanfield_from_graph g rq full sv = SIR_heterogeneous_meanfield Sk0 Ik0 Rk0 full sv) /\
+    (forall sv, SIR_homogeneous_meanfield_from_graph g rq sv = Ok (SIR_homogeneous_meanfield S0' I0' 0 sv)) /\
+    veq (1 :: Rk0) ([1] ++ unitv k 0) /\ veq Sk0 (unitv k ((1 - r) * N)) /\ veq (vadd (vadd Sk0 Ik0) Rk0) (unitv k N) /\
+    veq [S0'; I0'] [(1 - r) * N * qpow 1 (Z.of_nat k); N - (1 - r) * N * qpow 1 (Z.of_nat k) - 0].
+Proof. exact SIR_meanfield_regular_ic. Qed.
+(* the triangle is a well-formed 2-regular graph *)
+Example C07x_nonvacuous_regular : wf_ugraph tri_graph = true /\ regularb tri_graph 2 = true.
+Proof. split; vm_compute; reflexivity. Qed.
+
 (* ---------- non-vacuity ---------- *)
 (* P = (0, 1/4, 1/2, 1/4), rho = 1/10, N = 100, tau = 1/2, gamma = 1, theta = 1/2, R = 3: the hypotheses hold and the
    compact pairwise field on the manifold is not zero *)
@@ -340,6 +392,11 @@ Print Assumptions C07x_prefmix_discrete_outputs.
 Print Assumptions C07x_dict_pgf_is_polynomial.
 Print Assumptions C07x_lump_SIR_heterogeneous_meanfield_regular.
 Print Assumptions C07x_nonvacuous_lump_SIR_hmf.
+Print Assumptions C07x_SIR_pairwise_regular_initial_points.
+Print Assumptions C07x_SIS_pairwise_regular_initial_points.
+Print Assumptions C07x_SIS_meanfield_regular_initial_points.
+Print Assumptions C07x_SIR_meanfield_regular_initial_points.
+Print Assumptions C07x_nonvacuous_regular.
 Print Assumptions C07x_nonvacuous_hierarchy.
 Print Assumptions C07x_nonvacuous_graph.
 Print Assumptions C07x_nonvacuous_prefmix.
